@@ -4,9 +4,9 @@ from __future__ import annotations
 import ast
 import re
 
-from ..eqmodel import attrs_read, eq_disjuncts
+from ..eqmodel import attrs_read, attrs_read_deep, classify, dnf, eq_disjuncts, returned_bool
 from ..pymodel import package
-from ..valueflow import Flow, as_map, match, V, show, simp, walk, norm_guard
+from ..valueflow import Flow, as_map, match, V, show, simp, subst, walk, norm_guard
 from .c09 import hash_contract
 
 EXPLANATION = (
@@ -45,8 +45,12 @@ def _r1(ctx, pkg):
     ef = pkg.method("Reaction", "__eq__")
     rp = pkg.method("Reaction", "rpeq")
     ctx.saw(RF, "Reaction.__hash__")
-    reads = attrs_read(hf)
-    compared = attrs_read(ef) | attrs_read(rp)
+
+    def res(name):
+        return pkg.resolve("Reaction", name)[1]
+    # what the methods read, looking through predicate / key helpers of the class they call
+    reads = attrs_read_deep(hf, res)
+    compared = attrs_read_deep(ef, res) | attrs_read_deep(rp, res)
     extra = sorted(reads - compared)
     ctx.check(not extra, "R1", "Reaction.__hash__:reads", (RF, hf.lineno),
               "the hash reads only what __eq__/rpeq compare" if not extra else f"the hash reads {extra}, which equality ignores: equal reactions get different hashes",
@@ -54,8 +58,21 @@ def _r1(ctx, pkg):
     ctx.check({"reactants", "products"} <= reads, "R1", "Reaction.__hash__:covers both sides", (RF, hf.lineno), "reactants and products both enter the hash")
     # rpeq itself: the two sides are compared as multisets under Species equality (Counter), or through a canonical order
     # whose key equal species share -- a name order does not (e- / E, #CO / GCO sort apart and misalign the lists)
-    rsorts = [c for c in ast.walk(rp) if isinstance(c, ast.Call) and ast.unparse(c.func) == "sorted"]
+    def pieces(fn):
+        """the method and the helper methods of the class it calls on self (transitively): one body split in pieces"""
+        out, todo = [fn], [fn]
+        while todo:
+            x = todo.pop()
+            for c in ast.walk(x):
+                if isinstance(c, ast.Call) and isinstance(c.func, ast.Attribute) and isinstance(c.func.value, ast.Name) and c.func.value.id == "self":
+                    h = res(c.func.attr)
+                    if h is not None and not any(h is y for y in out) and h not in (hf, ef, rp):
+                        out.append(h)
+                        todo.append(h)
+        return out
+    rsorts = [c for part in pieces(rp) for c in ast.walk(part) if isinstance(c, ast.Call) and ast.unparse(c.func) == "sorted"]
     rsrc = ast.unparse(rp)
+    EXP = "Counter(self.reactants) == Counter(o.reactants) and Counter(self.products) == Counter(o.products)"
     if rsorts:
         lt0 = pkg.method("Species", "__lt__")
         keyset = attrs_read(lt0)
@@ -69,15 +86,43 @@ def _r1(ctx, pkg):
                   "the canonical order uses a key that equal species share" if not loose0 else
                   f"rpeq compares lists sorted by {sorted(keyset)}, but Species.__eq__ equates species whose {sorted(keyset)} differ (disjuncts {loose0}): with a partner that "
                   "sorts between the two spellings the lists misalign, == is False while the hashes agree, and the repeat is entered as a new key",
-                  expected="Counter(self.reactants) == Counter(o.reactants) and Counter(self.products) == Counter(o.products)", found=" ".join(rsrc.split())[-160:])
+                  expected=EXP, found=" ".join(rsrc.split())[-160:])
     else:
-        okc = all(re.search(rf"Counter\(self\.{a}\)\s*==\s*Counter\(\w+\.{a}\)", rsrc) for a in ("reactants", "products"))
-        ctx.check(okc, "R1", "Reaction.rpeq:multiset comparison", (RF, rp.lineno), "both sides are compared as Counters (multisets under Species equality and hash)",
-                  expected="Counter(self.reactants) == Counter(o.reactants) and Counter(self.products) == Counter(o.products)", found=" ".join(rsrc.split())[-160:])
+        # the value rpeq returns as one expression (guard clauses, locals and predicate helpers folded): a conjunction in which
+        # each side is compared as Counter(self.X) == Counter(o.X)
+        rx = returned_bool(rp, res)
+        K = "Reaction.rpeq:multiset comparison"
+        if rx is None:
+            ctx.unrec("R1", K, (RF, rp.lineno), "the value rpeq returns is not understood as one boolean expression")
+        else:
+            args = [a.arg for a in rp.args.args]
+            conj = dnf(rx)
+            lits = classify(conj[0], args[0], args[1]) if len(conj) == 1 and len(args) == 2 else None
+            found = " ".join(ast.unparse(rx).split())[-160:]
+            if lits is None:
+                # a disjunction: some way of being "equal" does not compare both sides
+                sides = [{a for a in ("reactants", "products") if any(a in ast.unparse(x) for x in c)} for c in conj]
+                if all(s_ == {"reactants", "products"} for s_ in sides):
+                    ctx.unrec("R1", K, (RF, rp.lineno), f"rpeq is a disjunction this rule does not read: {found}")
+                else:
+                    ctx.bad("R1", K, (RF, rp.lineno), "rpeq holds in a case that does not compare both the reactants and the products", expected=EXP, found=found)
+            else:
+                okc = all(("eq", f"Counter({a})") in lits for a in ("reactants", "products"))
+                if okc:
+                    ctx.ok("R1", K, (RF, rp.lineno), "both sides are compared as Counters (multisets under Species equality and hash)")
+                else:
+                    # positive evidence: the side is compared, but not as a multiset (set / frozenset / list / tuple / len ...), or is
+                    # not compared at all in a conjunction that is otherwise understood
+                    bad_side = [a for a in ("reactants", "products") if ("eq", f"Counter({a})") not in lits]
+                    opaque = [l for l in lits if l[0] != "eq" and any(a in l[-1] for a in bad_side)]
+                    if opaque:
+                        ctx.unrec("R1", K, (RF, rp.lineno), f"comparison of {bad_side} not recognised: {found}")
+                    else:
+                        ctx.bad("R1", K, (RF, rp.lineno), "both sides are compared as Counters (multisets under Species equality and hash)", expected=EXP, found=found)
     # canonicalising order
-    sorts = [c for c in ast.walk(hf) if isinstance(c, ast.Call) and ast.unparse(c.func) == "sorted"]
+    sorts = [c for part in pieces(hf) for c in ast.walk(part) if isinstance(c, ast.Call) and ast.unparse(c.func) == "sorted"]
     if not sorts:
-        src = ast.unparse(hf)
+        src = "\n".join(ast.unparse(part) for part in pieces(hf))
         multiset = "Counter(" in src or "frozenset" in src
         ctx.check(multiset, "R1", "Reaction.__hash__:order-free", (RF, hf.lineno),
                   "the hash is built from order-free multisets of species (consistent with rpeq's Counter comparison)" if multiset else
@@ -104,56 +149,155 @@ def _r1(ctx, pkg):
                   expected="an order-free hash (multisets), as rpeq compares", found=ast.unparse(hf.body[-1])[:120])
 
 
+def _mode_value(c, m):
+    """truth of a condition on the `mode` parameter for the abstract mode m in ("none", "brief", "text"); None = not decided"""
+    MODE = ("param", "mode")
+    if c[0] == "unop" and c[1] == "Not":
+        x = _mode_value(c[2], m)
+        return None if x is None else not x
+    if c[0] == "bool":
+        vals = [_mode_value(x, m) for x in c[2]]
+        if c[1] == "And":
+            return False if any(v is False for v in vals) else None if any(v is None for v in vals) else True
+        return True if any(v is True for v in vals) else None if any(v is None for v in vals) else False
+    if c[0] == "cmp" and len(c[1]) == 1 and len(c[2]) == 2:
+        op, (a, b) = c[1][0], c[2]
+        if b == MODE and a[0] == "const":
+            a, b = b, a
+        if a == MODE and b[0] == "const":
+            if op in ("Eq", "NotEq", "Is", "IsNot"):
+                if b[1] is None:
+                    r = m == "none"
+                elif b[1] == "brief":
+                    r = m == "brief"
+                elif isinstance(b[1], str) and b[1]:
+                    r = False if m in ("none", "brief") else None       # some other text mode: "text" stands for all of them
+                else:
+                    return None
+                if r is None:
+                    return None
+                return r if op in ("Eq", "Is") else not r
+    return None
+
+
+def _mode_leaf(v, m):
+    """the value a phi / ifexp tree over conditions on `mode` takes for the abstract mode m; None when a condition is not decided"""
+    while v[0] in ("phi", "ifexp"):
+        t = _mode_value(v[1], m)
+        if t is None:
+            return None
+        v = v[2] if t else v[3]
+    return v
+
+
 def _r3(ctx, pkg):
     fn = pkg.method("Network", "find_duplicate_reaction")
     ctx.saw(NF, "Network.find_duplicate_reaction")
-    fl = Flow(fn, NF)
+    # small pure helpers of the class (e.g. the construction of the check list) are read through
+    fl = Flow(fn, NF, resolver=lambda name: pkg.resolve("Network", name)[1])
     W = (NF, fn.lineno)
     RL = ("attr", SELF, "reaction_list")
     # the locals by role: (DUPES, DUPIDX, first) is the returned tuple; SEEN is the table `first` is read from (or, failing
     # that, the one the report is guarded by)
     DUPES, DUPIDX, SEEN = "dupes", "dupidx", "seen"
+    derived = None          # DUPES computed from DUPIDX after the loop: its value
     rets0 = [simp(f.value) for f in fl.facts if f.kind == "return"]
     if len(rets0) == 1 and rets0[0][0] == "tuple" and len(rets0[0][1]) == 3:
         a0, b0, c0 = rets0[0][1]
-        if a0[0] == "acc" and b0[0] == "acc":
-            DUPES, DUPIDX = a0[1], b0[1]
-        tabs = [x[1][1] for x in walk(c0) if isinstance(x, tuple) and len(x) == 5 and x[0] == "meth" and x[2] == "items" and x[1][0] == "acc"]
+        if b0[0] == "acc":
+            DUPIDX = b0[1]
+        if a0[0] == "acc":
+            DUPES = a0[1]
+        elif a0[0] == "comp":
+            DUPES, derived = None, a0
+        tabs = [x[1][1] for x in walk(c0) if isinstance(x, tuple) and len(x) == 5 and x[0] == "meth" and x[2] in ("items", "values") and x[1][0] == "acc"]
         if tabs:
             SEEN = tabs[0]
     ACC_SEEN = ("acc", SEEN)
+
+    def isseen(k):
+        return ("cmp", ("In",), (k, ACC_SEEN))        # guards are kept in positive form: unseen = (isseen, False)
+
+    # locals standing for the entry of the current key: `members = seen.get(chk)` / `seen[chk]`, bound once
+    entry = {}
+    for nm in {f.target for f in fl.facts if f.kind == "init"}:
+        ini = [f for f in fl.facts if f.kind == "init" and f.target == nm]
+        if len(ini) == 1 and ini[0].loops:
+            v = simp(ini[0].value)
+            if v[0] == "meth" and v[1] == ACC_SEEN and v[2] == "get" and not v[4] and (len(v[3]) == 1 or (len(v[3]) == 2 and v[3][1] == ("const", None))):
+                entry[("acc", nm)] = v[3][0]
+            elif v[0] == "sub" and v[1] == ACC_SEEN:
+                entry[("acc", nm)] = v[2]
+    for nm, lst in fl.assigns.items():
+        if ("acc", nm) not in entry and len(lst) == 1 and lst[0][1]:
+            v = simp(lst[0][0])
+            if v[0] == "meth" and v[1] == ACC_SEEN and v[2] == "get" and not v[4] and (len(v[3]) == 1 or (len(v[3]) == 2 and v[3][1] == ("const", None))):
+                entry[v] = v[3][0]
+
+    def cguard(g, p):
+        """guard in canonical form: tests of the current entry (`seen.get(k) is None`, truthiness of the fetched entry -- stored
+        values are non-empty lists, checked below) are membership tests of the key"""
+        g, p = norm_guard((simp(g), p))
+        for e, k in entry.items():
+            get = e if e[0] == "meth" else None
+            if g == e or (get is None and g == ("meth", ACC_SEEN, "get", (k,), ())):
+                return (isseen(k), p)
+            for lhs in (e, ("meth", ACC_SEEN, "get", (k,), ()), ("meth", ACC_SEEN, "get", (k, ("const", None)), ())):
+                if g == ("cmp", ("Is",), (lhs, ("const", None))) or g == ("cmp", ("Eq",), (lhs, ("const", None))):
+                    return (isseen(k), not p)
+        m_ = {e: ("sub", ACC_SEEN, k) for e, k in entry.items()}
+        return (simp(subst(g, m_)), p) if m_ else (g, p)
+
+    def cguards(f):
+        return [cguard(g, p) for g, p in f.guards]
+
+    def about_table(g):
+        return any(x == ACC_SEEN or x in entry for x in walk(g))
+
     stores = [f for f in fl.facts if f.kind == "store" and f.target == SEEN]
     reports = [f for f in fl.facts if f.kind == "append" and f.target in (DUPES, DUPIDX)]
-    grows = [f for f in fl.facts if f.kind == "call" and f.target == "append" and f.value[1][0] == "sub" and f.value[1][1] == ACC_SEEN]
+    # growth of an entry: seen[k].append(v)  /  members.append(v) with members the fetched entry
+    grows = []
+    for f in fl.facts:
+        if f.kind == "call" and f.target == "append" and f.value[1][0] == "sub" and f.value[1][1] == ACC_SEEN and len(f.value[3]) == 1:
+            grows.append((simp(f.value[1][2]), simp(f.value[3][0]), f))
+        elif f.kind == "append" and ("acc", f.target) in entry:
+            grows.append((entry[("acc", f.target)], simp(f.value), f))
     # whatever the shape of the table: an entry written for a key that is already there, with a value that does not
     # build on the old entry, forgets the first occurrence -- and `first` / the report are derived from the table
+    opaque = False
     for st in stores:
         k_ = simp(st.index)
-        g_ = [norm_guard((simp(g), p)) for g, p in st.guards]
-        reads_old = any(x == ACC_SEEN for x in walk(simp(st.value)))
-        if (("cmp", ("In",), (k_, ACC_SEEN)), False) not in g_ and not reads_old:
-            ctx.bad("R3", "store only when unseen", (NF, st.line), "the first-seen table is overwritten for a key that is already in it: the recorded occurrence is the previous one, not the first "
-                    "(classes of three or more members report a wrong first member)", expected="if chk not in seen: seen[chk] = [idx]",
-                    found="; ".join(("" if p else "not ") + show(g)[:60] for g, p in g_) or "unguarded store")
-    if len(stores) != 1 or len(reports) != 2 or len(grows) != 1:
+        g_ = cguards(st)
+        reads_old = any(x == ACC_SEEN or x in entry for x in walk(simp(st.value)))
+        if (isseen(k_), False) in g_ or reads_old:
+            continue
+        if any(about_table(g) and g != isseen(k_) for g, _ in g_):
+            opaque = True        # guarded by a test of the table this rule does not read: not evidence of an overwrite
+            continue
+        ctx.bad("R3", "store only when unseen", (NF, st.line), "the first-seen table is overwritten for a key that is already in it: the recorded occurrence is the previous one, not the first "
+                "(classes of three or more members report a wrong first member)", expected="if chk not in seen: seen[chk] = [idx]",
+                found="; ".join(("" if p else "not ") + show(g)[:60] for g, p in g_) or "unguarded store")
+    nrep = 2 if derived is None else 1
+    if len(stores) != 1 or len(reports) != nrep or len(grows) != 1 or opaque:
         ctx.unrec("R3", "find_duplicate_reaction", W, f"first-seen table not recognised (stores {len(stores)}, report appends {len(reports)}, growth {len(grows)})")
         return
     st = stores[0]
     key = simp(st.index)
     lp = st.loops[0] if len(st.loops) == 1 else None
-    isseen = ("cmp", ("In",), (key, ACC_SEEN))        # guards are kept in positive form: unseen = (isseen, False)
+    SEENK = isseen(key)
     # loop
     it = simp(lp.iter) if lp else None
     chk = it[2][0] if it and it[0] == "call" and it[1] == ("global", "enumerate") and len(it[2]) == 1 else ("const", None)
     ok_loop = lp is not None and it == ("call", ("global", "enumerate"), (chk,), ())
     ctx.check(ok_loop, "R3", "loop", (NF, lp.line if lp else fn.lineno), "every entry of the check list is visited once, in order, with its index", found=show(it)[:100] if it else "")
-    ctx.check([norm_guard((simp(g), p)) for g, p in st.guards] == [(isseen, False)], "R3", "store only when unseen", (NF, st.line),
-              "a key enters `seen` exactly when it was not there", expected="if chk not in seen: seen[chk] = [idx]", found="; ".join(show(simp(g))[:60] for g, _ in st.guards))
+    ctx.check(cguards(st) == [(SEENK, False)], "R3", "store only when unseen", (NF, st.line),
+              "a key enters `seen` exactly when it was not there", expected="if chk not in seen: seen[chk] = [idx]", found="; ".join(show(g)[:60] for g, _ in cguards(st)))
     v = simp(st.value)
     ctx.check(v[0] == "list" and len(v[1]) == 1 and v[1][0][0] == "idx", "R3", "stored list non-empty", (NF, st.line), "the stored value is the one-element list [idx]", found=show(v)[:60])
     for f in reports:
-        g = [norm_guard((simp(x), p)) for x, p in f.guards]
-        base_ok = g and g[0] == (isseen, True)
+        g = cguards(f)
+        base_ok = g and g[0] == (SEENK, True)
         extra = g[1:]
         taut = True
         why = ""
@@ -164,20 +308,32 @@ def _r3(ctx, pkg):
                 continue
             if p and x == ("sub", ACC_SEEN, key):
                 continue        # the same test in its canonical spelling: the stored list is non-empty (truthy)
+            if x == SEENK and p:
+                continue        # the membership test repeated
             taut = False
             why = show(x)[:80]
-        ctx.check(bool(base_ok) and taut, "R3", f"report:{f.target}", (NF, f.line),
+        role = "dupes" if f.target == DUPES else "dupidx"
+        ctx.check(bool(base_ok) and taut, "R3", f"report:{role}", (NF, f.line),
                   "a reaction is reported iff its key was seen before" if base_ok and taut else
                   f"the report is additionally guarded by `{why}`, which is not always true in the seen arm: the second member of a repeated class is not reported",
                   expected="report in the `else` of `chk not in seen` (any extra guard a tautology such as len(seen[chk]) >= 1)", found="; ".join(("" if p else "not ") + show(x)[:50] for x, p in g))
-    d = [f for f in reports if f.target == DUPES][0]
     i = [f for f in reports if f.target == DUPIDX][0]
     idx = ("idx", chk, lp.id) if lp else None
-    ctx.check(simp(i.value) == idx and simp(d.value) == ("sub", RL, idx), "R3", "report values", (NF, d.line),
-              "the reported pair is (reactions[idx], idx) of the current entry", found=f"{show(simp(d.value))[:60]} / {show(simp(i.value))[:40]}")
-    g = grows[0]
-    gg = [norm_guard((simp(x), p)) for x, p in g.guards]
-    ctx.check(gg == [(isseen, True)] and simp(g.value[3][0]) == idx, "R3", "seen arm appends index", (NF, g.line), "every later occurrence appends its index to the key's list, unconditionally",
+    if derived is None:
+        d = [f for f in reports if f.target == DUPES][0]
+        ctx.check(simp(i.value) == idx and simp(d.value) == ("sub", RL, idx), "R3", "report values", (NF, d.line),
+                  "the reported pair is (reactions[idx], idx) of the current entry", found=f"{show(simp(d.value))[:60]} / {show(simp(i.value))[:40]}")
+    else:
+        # the reported reactions are read off the reported positions after the loop
+        m = as_map(derived)
+        if not m or m[2] != ("acc", DUPIDX):
+            ctx.unrec("R3", "report values", (NF, i.line), f"the reported reactions are neither appended with the positions nor a map over them: {show(derived)[:100]}")
+        else:
+            ctx.check(simp(i.value) == idx and m[1] == ("sub", RL, m[0]) and not m[3], "R3", "report values", (NF, i.line),
+                      "the reported pair is (reactions[idx], idx) of the current entry", found=f"{show(derived)[:60]} / {show(simp(i.value))[:40]}")
+    gk, gv, g = grows[0]
+    gg = cguards(g)
+    ctx.check(gg == [(SEENK, True)] and gk == key and gv == idx, "R3", "seen arm appends index", (NF, g.line), "every later occurrence appends its index to the key's list, unconditionally",
               found="; ".join(show(x)[:50] for x, _ in gg))
     # first
     rets = [f for f in fl.facts if f.kind == "return"]
@@ -186,29 +342,33 @@ def _r3(ctx, pkg):
     if len(rets) == 1 and simp(rets[0].value)[0] == "tuple" and len(simp(rets[0].value)[1]) == 3:
         a, b, c = simp(rets[0].value)[1]
         found = show(c)[:140]
-        if c[0] == "comp" and len(c[3]) == 1 and a == ("acc", DUPES) and b == ("acc", DUPIDX):
+        if c[0] == "comp" and len(c[3]) == 1 and (a == ("acc", DUPES) or derived is not None) and b == ("acc", DUPIDX):
             tg, itr, ifs = c[3][0]
+            idxes = None
             if itr == ("meth", ACC_SEEN, "items", (), ()) and tg[0] == "tuple" and len(tg[1]) == 2:
                 idxes = tg[1][1]
+            elif itr == ("meth", ACC_SEEN, "values", (), ()) and tg[0] == "bv":
+                idxes = tg
+            if idxes is not None:
                 okf = c[2] == ("sub", RL, ("sub", idxes, ("const", 0))) and tuple(ifs) == (("cmp", ("Gt",), (("call", ("global", "len"), (idxes,), ()), ("const", 1))),)
     ctx.check(okf, "R3", "first", (NF, rets[0].line if rets else fn.lineno), "`first` = reactions[idxes[0]] for every key seen more than once, in insertion order",
               expected="[reactions[idxes[0]] for _, idxes in seen.items() if len(idxes) > 1]", found=found)
-    # check list per mode
-    okm = False
-    if chk[0] == "phi" and chk[1] == ("cmp", ("Eq",), (("param", "mode"), ("const", "brief"))):
-        brief, rest = chk[2], chk[3]
+    # check list per mode: whatever the spelling of the dispatch, the list for mode None / "brief" / any other text
+    leaves = {m: _mode_leaf(chk, m) for m in ("none", "brief", "text")}
+    if chk[0] in ("phi", "ifexp") and all(v is not None for v in leaves.values()):
+        brief = leaves["brief"]
         m = as_map(brief)
         ok_b = bool(m) and m[2] == RL and not m[3] and m[1] == ("call", ("global", "Reaction"), (("attr", m[0], "reactants"), ("attr", m[0], "products")), ())
         ctx.check(ok_b, "R3", "mode brief", (NF, fn.lineno),
                   "brief mode compares Reaction(reactants, products): the multisets of species, nothing else" if ok_b else
                   "brief mode does not compare the reactant/product lists themselves (multiplicity or order information is lost or added)",
                   expected="[Reaction(re.reactants, re.products) for re in reactions]", found=show(brief)[:120])
-        ok_s = rest[0] == "phi" and rest[3] == RL
+        ok_s = leaves["none"] == RL
         if ok_s:
-            m2 = as_map(rest[2])
+            m2 = as_map(leaves["text"])
             ok_s = bool(m2) and m2[2] == RL and not m2[3] and m2[1][0] == "fstr" and len(m2[1][1]) == 1 and m2[1][1][0][0] == "fmt" and m2[1][1][0][1] == m2[0]
         ctx.check(bool(ok_s), "R3", "mode string/default", (NF, fn.lineno), "string modes compare f'{react:{mode}}' of every reaction; the default compares the reactions themselves",
-                  found=show(rest)[:140])
+                  found=f"{show(leaves['text'])[:100]} / {show(leaves['none'])[:40]}")
     else:
         ctx.unrec("R3", "check_list", W, f"mode dispatch not recognised: {show(chk)[:100]}")
     # the formatted names are in a total order (by name)
@@ -236,27 +396,84 @@ def _r3(ctx, pkg):
                   expected=f"[x.name for x in sorted(self.{attr})]", found=found)
 
 
+def _flat_cases(v, conds=()):
+    """a phi / ifexp tree as [(conditions, leaf)]"""
+    if v[0] in ("phi", "ifexp") and len(v) == 4:
+        return _flat_cases(v[2], conds + ((v[1], True),)) + _flat_cases(v[3], conds + ((v[1], False),))
+    return [(conds, v)]
+
+
 def _r4(ctx, pkg, rule="R4"):
+    """What happens to self.reaction_list when the argument is a list of positions: every statement that can run in that
+    scenario (guards and value-selecting conditions evaluated with `reaction` a non-empty list of ints, unknown tests left open)
+    and changes the list must be the one rebuild `[r for idx, r in enumerate(self.reaction_list) if idx not in reaction]`."""
+    from ..valueflow import _bool_atoms, guards_satisfiable, split_guard
     fn = pkg.method("Network", "remove_reaction")
     ctx.saw(NF, "Network.remove_reaction")
     fl = Flow(fn, NF)
     RL = ("attr", SELF, "reaction_list")
-    R = ("param", "reaction")
-    st = [f for f in fl.facts if any(re.search(r"isinstance\(\w+, int\) for", show(simp(g))) and p for g, p in f.guards)]
-    ok = False
-    found = ""
-    if len(st) == 1 and st[0].kind == "attrstore" and st[0].target == "reaction_list":
-        v = simp(st[0].value)
-        found = show(v)[:120]
+    P = fn.args.args[1].arg if len(fn.args.args) > 1 else "reaction"
+    R = ("param", P)
+    K = "remove_reaction:list of indices"
+    p_ = re.escape(P)
+    SCEN = [(rf"^isinstance\({p_}, int\)$", False), (rf"^isinstance\({p_}, list\)$", True), (rf"^all\(\[isinstance\(\w+, int\) for \w+ in {p_}\]\)$", True),
+            (rf"^isinstance\({p_}, Reaction\)$", False), (rf"^all\(\[isinstance\(\w+, Reaction\) for \w+ in {p_}\]\)$", False)]
+
+    def reachable(guards):
+        gs = []
+        for g, pol in guards:
+            gs.extend(split_guard((simp(g), pol)))
+        atoms = set()
+        for c, _ in gs:
+            _bool_atoms(c, atoms)
+        extra = []
+        for a_ in atoms:
+            for pat, val in SCEN:
+                if re.search(pat, show(a_)):
+                    extra.append((a_, val))
+        return guards_satisfiable(gs, extra)
+
+    # everything that changes self.reaction_list, case by case
+    cases = []          # (kind, leaf | None, fact)
+    for f in fl.facts:
+        if f.kind == "attrstore" and f.target == "reaction_list" and f.extra.get("obj") == SELF:
+            for conds, leaf in _flat_cases(simp(f.value)):
+                if reachable(tuple(f.guards) + conds):
+                    cases.append(("rebuild" if f.op == "=" else "inplace", leaf, f))
+        elif f.kind == "call" and f.value is not None and f.value[0] == "meth" and simp(f.value[1]) == RL and f.target in ("pop", "remove", "clear", "insert", "append", "extend", "sort", "reverse"):
+            if reachable(f.guards):
+                cases.append(("inplace", None, f))
+        elif (f.kind == "delete" and f.target.replace(" ", "").startswith("self.reaction_list")) or (f.kind in ("store", "augstore") and f.target == "self.reaction_list"):
+            if reachable(f.guards):
+                cases.append(("inplace", None, f))
+    W = (NF, cases[0][2].line if cases else fn.lineno)
+    inplace = [c for c in cases if c[0] == "inplace"]
+    EXP = "[r for idx, r in enumerate(self.reaction_list) if idx not in reaction]"
+    BADMSG = "the index-list branch does not rebuild the list from `idx not in reaction`: in-place deletion shifts positions / mishandles repeated indices"
+    if inplace:
+        f = inplace[0][2]
+        ctx.bad(rule, K, (NF, f.line), BADMSG, expected=EXP, found="; ".join(f"{c[2].kind} {c[2].target}@{c[2].line}" for c in cases))
+        return
+    if not cases:
+        ctx.unrec(rule, K, W, "no statement that changes self.reaction_list for a list of positions was found")
+        return
+    verdicts = []
+    for _, v, f in cases:
+        ok = wrong = False
         if v[0] == "comp" and len(v[3]) == 1:
             tg, it, ifs = v[3][0]
             ok = it == ("call", ("global", "enumerate"), (RL,), ()) and tg[0] == "tuple" and v[2] == tg[1][1] and tuple(ifs) == (("cmp", ("NotIn",), (tg[1][0], R)),)
+            # a filter over the list itself with another test is understood -- and wrong (by value, by `idx in`, ...)
+            wrong = not ok and it in (RL, ("call", ("global", "enumerate"), (RL,), ()))
+        verdicts.append((ok, wrong, v, f))
+    if all(o for o, _, _, _ in verdicts):
+        ctx.ok(rule, K, W, "exactly the reactions whose position is not listed survive (repeated indices are harmless)")
+    elif any(w for _, w, _, _ in verdicts):
+        _, _, v, f = next(x for x in verdicts if x[1])
+        ctx.bad(rule, K, (NF, f.line), BADMSG, expected=EXP, found=show(v)[:120])
     else:
-        found = "; ".join(f"{f.kind} {f.target}@{f.line}" for f in st)
-    ctx.check(ok, rule, "remove_reaction:list of indices", (NF, st[0].line if st else fn.lineno),
-              "exactly the reactions whose position is not listed survive (repeated indices are harmless)" if ok else
-              "the index-list branch does not rebuild the list from `idx not in reaction`: in-place deletion shifts positions / mishandles repeated indices",
-              expected="[r for idx, r in enumerate(self.reaction_list) if idx not in reaction]", found=found)
+        _, _, v, f = next(x for x in verdicts if not x[0])
+        ctx.unrec(rule, K, (NF, f.line), f"the list built for a list of positions is not recognised: {show(v)[:120]}")
 
 
 def _r5(ctx, pkg):
@@ -382,6 +599,55 @@ MUTANTS = [
     {"name": "species-hash-reads-name", "file": "naunet/species.py", "old": '                f"{self.basename}"\n                f"{self.charge}"', "new": '                f"{self.name}"\n                f"{self.charge}"', "rules": ["R2"]},
     {"name": "remove-in-place-backwards", "file": NF, "old": "            self.reaction_list = [\n                r for idx, r in enumerate(self.reaction_list) if idx not in reaction\n            ]\n", "new": "            for idx in sorted(reaction, reverse=True):\n                del self.reaction_list[idx]\n", "rules": ["R4"]},
 ]
+_HASH = "        return hash(\n            (\n                frozenset(Counter(self.reactants).items()),\n                frozenset(Counter(self.products).items()),\n            )\n        )\n"
+_RPEQ = "        return Counter(self.reactants) == Counter(o.reactants) and Counter(\n            self.products\n        ) == Counter(o.products)"
+_LOOP = ("            if chk not in seen:\n                seen[chk] = [idx]\n            else:\n                if len(seen[chk]) >= 1:\n                    dupes.append(reactions[idx])\n"
+         "                    dupidx.append(idx)\n                seen[chk].append(idx)\n")
+_RM = ("        elif isinstance(reaction, list) and all(isinstance(r, int) for r in reaction):\n            self.reaction_list = [\n"
+       "                r for idx, r in enumerate(self.reaction_list) if idx not in reaction\n            ]\n")
 BENIGN = [
     {"name": "report-guard-gt-0", "file": NF, "old": "if len(seen[chk]) >= 1:", "new": "if len(seen[chk]) > 0:"},
+    {"name": "hash-key-in-helper", "file": RF, "old": _HASH,
+     "new": "        return hash(self._sides())\n\n    def _sides(self):\n        return (frozenset(Counter(self.reactants).items()), frozenset(Counter(self.products).items()))\n"},
+    {"name": "rpeq-guard-clause", "file": RF, "old": _RPEQ,
+     "new": "        if Counter(self.reactants) != Counter(o.reactants):\n            return False\n\n        return Counter(self.products) == Counter(o.products)"},
+    {"name": "rpeq-locals-and-if-else", "file": RF, "old": _RPEQ,
+     "new": "        same_r = Counter(o.reactants) == Counter(self.reactants)\n        if same_r:\n            return Counter(self.products) == Counter(o.products)\n        else:\n            return False"},
+    {"name": "seen-entry-fetched-once", "file": NF, "old": _LOOP,
+     "new": "            members = seen.get(chk)\n            if members is None:\n                seen[chk] = [idx]\n                continue\n            dupes.append(reactions[idx])\n"
+            "            dupidx.append(idx)\n            members.append(idx)\n"},
+    {"name": "dupes-derived-from-positions", "edits": [
+        {"file": NF, "old": "                    dupes.append(reactions[idx])\n", "new": ""},
+        {"file": NF, "old": "        dupes = []\n        dupidx = []\n", "new": "        dupidx = []\n"},
+        {"file": NF, "old": "        first = [reactions[idxes[0]] for _, idxes in seen.items() if len(idxes) > 1]\n",
+         "new": "        dupes = [reactions[i] for i in dupidx]\n        first = [reactions[idxes[0]] for idxes in seen.values() if len(idxes) > 1]\n"}]},
+    {"name": "check-list-guard-clauses-in-helper", "edits": [
+        {"file": NF, "old": "        check_list = reactions\n\n        if mode == \"brief\":\n            check_list = [Reaction(re.reactants, re.products) for re in reactions]\n"
+                            "        elif mode is not None:\n            check_list = [f\"{react:{mode}}\" for react in reactions]\n",
+         "new": "        check_list = self._keys_for(reactions, mode)\n"},
+        {"file": NF, "old": "    def find_duplicate_reaction(self, mode: str = None)",
+         "new": "    def _keys_for(self, reactions, mode):\n        if mode is None:\n            return reactions\n        if mode != \"brief\":\n            return [f\"{react:{mode}}\" for react in reactions]\n"
+                "        return [Reaction(re.reactants, re.products) for re in reactions]\n\n    def find_duplicate_reaction(self, mode: str = None)"}]},
+    {"name": "removal-predicate-chosen-per-branch", "file": NF, "old": _RM,
+     "new": "        elif isinstance(reaction, list) and all(isinstance(r, int) for r in reaction):\n            keep = lambda i, r: i not in reaction\n"
+            "            self.reaction_list = [r for i, r in enumerate(self.reaction_list) if keep(i, r)]\n"},
+]
+MUTANTS += [
+    # the same defects in the restructured spellings the rules read through
+    {"name": "rpeq-guard-clause-sets", "file": RF, "old": _RPEQ,
+     "new": "        if set(self.reactants) != set(o.reactants):\n            return False\n\n        return Counter(self.products) == Counter(o.products)", "rules": ["R1"]},
+    {"name": "rpeq-one-side-suffices", "file": RF, "old": _RPEQ,
+     "new": "        if Counter(self.reactants) == Counter(o.reactants):\n            return True\n\n        return Counter(self.products) == Counter(o.products)", "rules": ["R1"]},
+    {"name": "entry-fetched-report-needs-two", "file": NF, "old": _LOOP,
+     "new": "            members = seen.get(chk)\n            if members is None:\n                seen[chk] = [idx]\n                continue\n            if len(members) > 1:\n                dupes.append(reactions[idx])\n"
+            "                dupidx.append(idx)\n            members.append(idx)\n", "rules": ["R3"]},
+    {"name": "entry-fetched-overwritten", "file": NF, "old": _LOOP,
+     "new": "            members = seen.get(chk)\n            if members is not None:\n                dupes.append(reactions[idx])\n                dupidx.append(idx)\n            seen[chk] = [idx]\n", "rules": ["R3"]},
+    {"name": "removal-predicate-by-value", "file": NF, "old": _RM,
+     "new": "        elif isinstance(reaction, list) and all(isinstance(r, int) for r in reaction):\n            keep = lambda i, r: r not in reaction\n"
+            "            self.reaction_list = [r for i, r in enumerate(self.reaction_list) if keep(i, r)]\n", "rules": ["R4"]},
+]
+MUTANTS += [
+    {"name": "hash-key-in-helper-sorted-by-name", "file": RF, "old": _HASH,
+     "new": "        return hash(self._sides())\n\n    def _sides(self):\n        return (tuple(sorted(self.reactants)), tuple(sorted(self.products)))\n", "rules": ["R1"]},
 ]
